@@ -49,6 +49,19 @@ inline std::vector<block> read_blocks(char const* path)
 struct trace
 {
 	std::string buf;
+	int fd = -1;   // when set, every line is written through at once (so a crash keeps the prefix)
+	void flush_line(size_t from)
+	{
+		if (fd < 0) return;
+		size_t off = from;
+		while (off < buf.size())
+		{
+			ssize_t w = write(fd, buf.data() + off, buf.size() - off);
+			if (w <= 0) break;
+			off += size_t(w);
+		}
+		buf.clear();
+	}
 	void line(char const* fmt, ...) __attribute__((format(printf, 2, 3)))
 	{
 		char tmp[4096];
@@ -63,8 +76,9 @@ struct trace
 		}
 		else buf.append(tmp, n);
 		buf.push_back('\n');
+		flush_line(0);
 	}
-	void raw(std::string const& s) { buf += s; buf.push_back('\n'); }
+	void raw(std::string const& s) { buf += s; buf.push_back('\n'); flush_line(0); }
 };
 
 inline long long ll(std::string const& s) { return std::strtoll(s.c_str(), nullptr, 10); }
@@ -95,6 +109,7 @@ inline int run_blocks(char const* in, char const* outp, bool do_fork
 		{
 			close(pfd[0]);
 			trace t;
+			t.fd = pfd[1];
 			bool thrown = false;
 			try { fn(b, t); }
 			catch (std::exception const& e) { t.line("EXC %s", e.what()); thrown = true; }
